@@ -405,6 +405,25 @@ func cmdRun(args []string) {
 	wg.Wait()
 	os.RemoveAll(b.tmp)
 
+	// assumption check (thorough tier): free-running -race pass of the same kinds of workloads
+	var raceInfo map[string]any
+	var raceViolation *violation
+	if *tier == "thorough" || os.Getenv("VERIF_RACEPASS") == "1" {
+		if ran, report, w, rerr := racePass(*repo, prop); ran {
+			raceInfo = map[string]any{"tests": raceTests[prop], "wall_s": w, "role": "assumption check (sampling): the explorer switches goroutines only at synchronisation operations, which is complete for data-race-free code; not counted as coverage"}
+			switch {
+			case rerr != nil:
+				raceInfo["result"] = "could not run: " + rerr.Error()
+			case report != "":
+				raceInfo["result"] = "DATA RACE reported"
+				raceViolation = &violation{Property: prop, Scenario: "free-running -race pass " + raceTests[prop], Rule: "RACE",
+					Msg: "data race reported by the Go race detector: every 'for all interleavings' claim of this property is unsupported: " + raceSummary(report), Detail: tail(report, 6000)}
+			default:
+				raceInfo["result"] = "no race reported"
+			}
+		}
+	}
+
 	// aggregate
 	kf := loadKnown()
 	var execs, nodes, steps, replayed, nScen, nCapped, nComplete int
@@ -464,6 +483,14 @@ func cmdRun(args []string) {
 			unknown = append(unknown, v)
 		}
 	}
+	if raceViolation != nil {
+		raceViolation.Tier = *tier
+		if k := matchKnown(kf, *raceViolation); k != nil {
+			knownSeen[k.ID] = fmt.Sprintf("%s (%s)", k.ID, k.What)
+		} else {
+			unknown = append(unknown, *raceViolation)
+		}
+	}
 	wall := time.Since(t0).Seconds()
 	if len(engineErrs) > 0 {
 		for _, e := range engineErrs {
@@ -498,6 +525,9 @@ func cmdRun(args []string) {
 	}
 	if len(extra) > 0 {
 		cov["extra"] = extra
+	}
+	if raceInfo != nil {
+		cov["race_pass"] = raceInfo
 	}
 	if len(samples) == 0 {
 		cov["samples"] = []any{"(no scenario produced a sample)"}
@@ -552,11 +582,75 @@ func cmdRun(args []string) {
 	}
 }
 
+var raceTests = map[string]string{
+	"C01": "TestRace_Server", "C03": "TestRace_Server", "C06": "TestRace_Server", "C07": "TestRace_Server", "C08": "TestRace_Server", "C09": "TestRace_Server",
+	"C04": "TestRace_Client", "C05": "TestRace_Client", "C10": "TestRace_(Server|Client)",
+	"C18": "TestRace_Bridge", "C19": "TestRace_Bridge", "C20": "TestRace_Loop",
+}
+
+// racePass runs the free-running -race workloads that discharge the explorer's
+// data-race-freedom assumption for prop. It returns the race report ("" if none).
+func racePass(repo, prop string) (ran bool, report string, wall float64, err error) {
+	pat, ok := raceTests[prop]
+	if !ok {
+		return false, "", 0, nil
+	}
+	t0 := time.Now()
+	args := []string{"test", "-race", "-count=1", "-run", pat}
+	abs, _ := filepath.Abs(repo)
+	var tmp string
+	if abs != "/repo" {
+		tmp, _ = os.MkdirTemp("", "vrace-")
+		defer os.RemoveAll(tmp)
+		gm, _ := os.ReadFile(filepath.Join(engineDir, "go.mod"))
+		gm = bytes.ReplaceAll(gm, []byte("=> /repo"), []byte("=> "+abs))
+		os.WriteFile(filepath.Join(tmp, "go.mod"), gm, 0o644)
+		gs, _ := os.ReadFile(filepath.Join(engineDir, "go.sum"))
+		os.WriteFile(filepath.Join(tmp, "go.sum"), gs, 0o644)
+		args = append(args, "-modfile="+filepath.Join(tmp, "go.mod"))
+	}
+	args = append(args, "./racepass/")
+	cmd := exec.Command("go", args...)
+	cmd.Dir = engineDir
+	env := []string{}
+	for _, e := range goEnv() {
+		if !strings.HasPrefix(e, "CGO_ENABLED=") {
+			env = append(env, e)
+		}
+	}
+	cmd.Env = append(env, "CGO_ENABLED=1")
+	out, rerr := cmd.CombinedOutput()
+	wall = time.Since(t0).Seconds()
+	if bytes.Contains(out, []byte("WARNING: DATA RACE")) {
+		return true, string(out), wall, nil
+	}
+	if rerr != nil {
+		return true, "", wall, fmt.Errorf("race pass could not run: %v\n%s", rerr, tail(string(out), 2000))
+	}
+	return true, "", wall, nil
+}
+
 func max1(n int) int {
 	if n < 1 {
 		return 1
 	}
 	return n
+}
+
+// raceSummary names the two access sites of the first reported race.
+func raceSummary(report string) string {
+	var sites []string
+	lines := strings.Split(report, "\n")
+	for i, l := range lines {
+		t := strings.TrimSpace(l)
+		if (strings.HasPrefix(t, "Write at") || strings.HasPrefix(t, "Read at") || strings.HasPrefix(t, "Previous write at") || strings.HasPrefix(t, "Previous read at")) && i+1 < len(lines) {
+			sites = append(sites, strings.TrimSpace(lines[i+1]))
+			if len(sites) == 2 {
+				break
+			}
+		}
+	}
+	return strings.Join(sites, " <-> ")
 }
 
 func tail(s string, n int) string {
